@@ -3,6 +3,8 @@
 From Coq Require Import List NArith Bool.
 From Coq.Strings Require Import Byte.
 From SP Require Import Bytes BaseX Encodings BaseXProofs.
+From Coq Require ZArith String.
+From SP Require Streams GoLang GoLang2 GoAst GoAstStreams GoAstProofs5b.
 Import ListNotations.
 Open Scope N_scope.
 
@@ -62,6 +64,162 @@ Theorem C10_foreign_rejected (s : bytes) :
 Proof. exact (decode_foreign e Hbase_lo Hbase_hi Hnodup Hibl s). Qed.
 End AnyEncoding.
 
+(* ---- source ties: the streaming base-X ENCODER (/repo/encoding/basex/stream.go), lemmas of proofs/GoAstProofs5b.v ---- *)
+(* The terms f_basex_encoder_Write and f_basex_encoder_Close are generated on every run from the Go syntax trees of
+   /repo/encoding/basex/stream.go (gen/GoAstStreams.v) and run by the evaluator of model/GoLang2.v.  [run2] is
+   run_func2 with the fuel as a parameter (run_func2 = run2 .. 300 by reflexivity): a `for` loop may iterate at most
+   as often as the fuel left, so the theorems are stated for EVERY fuel F above an explicit bound that grows with
+   the input — hence for every input — and the _300 corollaries are the instances for run_func2.
+   The *encoder object is [g_obj en o], o : gobj = (e.err, e.buf, e.nbuf, e.out, e.w).  The underlying io.Writer is
+   [g_wr w], w : wr = (w_log, w_sched): "Writer.Write" appends the byte string it is handed to w_log (the log is the
+   list of Write calls, in order, failed or not) and returns the head of the schedule w_sched as its error (None =
+   nil; an exhausted schedule never fails) — so every theorem holds for every failure behaviour of the writer.
+   [run_calls calls w] hands a list of byte strings to such a writer until one call fails: (calls made, error, writer
+   afterwards).  The model is the state machine bxe_write / bxe_close of model/Streams.v (the one C13's write-side
+   theorems are about), which has no failing writer: the theorems say the Go code makes exactly the model's writes,
+   in order, up to and including the first one that fails.  gw_write / gw_close are the Go-level specification
+   functions of GoAstProofs5b.v (count, error, the whole receiver object including the scratch buffers, the final
+   value of the local p); go_calls en K ws re-cuts every model write into the pieces of at most K blocks that Go's
+   interior loop hands to the writer.
+   Common hypotheses.  Hibl: 0 < base256BlockLen; HK: 1 <= K (with a zero block length or an empty output buffer the
+   Go loop `for len(p) >= ibl` would not terminate); gobj_ok en K o = the invariants NewEncoder establishes and
+   Write/Close keep: len(e.buf) = base256BlockLen, len(e.out) = K * baseXBlockLen (K = 128 in NewEncoder), and
+   nbuf < base256BlockLen while e.err = nil.  The encoding en is otherwise arbitrary.
+   NOT EXPRESSIBLE in the evaluator (reported in GoAstProofs5b.v): the last statement of Write,
+   `copy(e.buf[0:len(p)], p)`, writes through a slice of a field, which is not a place of model/GoLang2.v: every
+   statement about Write gives the object BEFORE that copy together with the final local p'; [pending_copy o' p'] is
+   the object after it (the identity when the input ends on a block boundary). *)
+Section C10_source.
+Import ZArith GoLang GoLang2 GoAst GoAstStreams Streams GoAstProofs5b String.StringSyntax.
+Local Open Scope nat_scope.
+Variable en : encoding.
+Variable K : nat.
+Hypothesis Hibl : 0 < ibl_nat en.
+Hypothesis HK : 1 <= K.
+
+(* encoder.Write(p) computes exactly gw_write: the count, the error, the receiver object and the final local p, for
+   every object, every p and every writer schedule.  Hypotheses: Hibl, HK, gobj_ok, and the fuel bound
+   30 + ibl + len(p)/(K*ibl) <= F (one loop turn per K blocks of input plus up to ibl-1 for the leading fringe). *)
+Theorem C10_source_encoder_Write_run (o : gobj) (p : bytes) (F : nat) :
+  gobj_ok en K o -> 30 + ibl_nat en + List.length p / (K * ibl_nat en) <= F ->
+  let r := run2 (ext_bx en) F f_basex_encoder_Write [g_obj en o; VBytes p] in
+  let '(n, er, o', p') := gw_write en K o p in
+  fst r = ORet [VInt (Z.of_nat n); g_werr er] /\ lookup "e" (snd r) = Some (g_obj en o') /\ lookup "p" (snd r) = Some (VBytes p').
+Proof. exact (go_encoder_Write_run en K Hibl HK o p F). Qed.
+
+(* encoder.Close() computes exactly gw_close: the error and the receiver object.  Hypotheses: Hibl, HK, gobj_ok,
+   fuel >= 12 (Close has no loop). *)
+Theorem C10_source_encoder_Close_run (o : gobj) (F : nat) :
+  gobj_ok en K o -> 12 <= F ->
+  let r := run2 (ext_bx en) F f_basex_encoder_Close [g_obj en o] in
+  fst r = ORet [g_werr (fst (gw_close en o))] /\ lookup "e" (snd r) = Some (g_obj en (snd (gw_close en o))).
+Proof. exact (go_encoder_Close_run en K Hibl HK o F). Qed.
+
+(* gw_write against the model: with (ws, mb') = bxe_write en (buffered bytes) p, the writer ends as
+   run_calls (go_calls en K ws) leaves it; the error returned and stored in e.err is that of the first failing
+   call; without a failure n = len(p), nbuf = |mb'|, the buffered bytes are mb' once the trailing copy is performed
+   (pending_copy) and the invariant holds again; with a failure n is the number of input bytes consumed before it.
+   Hypotheses: Hibl, HK, gobj_ok, e.err = nil. *)
+Theorem C10_source_gw_write_model (o : gobj) (p : bytes) :
+  gobj_ok en K o -> go_err o = None ->
+  let mb := firstn (go_nbuf o) (go_buf o) in
+  let '(ws, mb') := bxe_write en mb p in
+  let '(j, erm, wm) := run_calls (go_calls en K ws) (go_w o) in
+  let '(n, er, o', p') := gw_write en K o p in
+  er = erm /\ go_w o' = wm /\ go_err o' = er /\
+  match er with
+  | None => n = List.length p /\ go_nbuf o' = List.length mb' /\
+            firstn (go_nbuf o') (go_buf (pending_copy o' p')) = mb' /\ gobj_ok en K (pending_copy o' p')
+  | Some _ => n = (if Nat.ltb 0 (go_nbuf o) then ibl_nat en - go_nbuf o else 0)
+                  + (j - 1 - (if Nat.ltb 0 (go_nbuf o) then 1 else 0)) * (K * ibl_nat en)
+  end.
+Proof. exact (gw_write_model en K Hibl HK o p). Qed.
+
+(* gw_close against the model: the writer ends as run_calls (bxe_close en (buffered bytes)) leaves it (at most one
+   write: the encoding of the last partial block), the error returned and stored is that call's, nbuf = 0, the
+   scratch buffers keep their lengths.  Hypotheses: Hibl, HK, gobj_ok, e.err = nil. *)
+Theorem C10_source_gw_close_model (o : gobj) :
+  gobj_ok en K o -> go_err o = None ->
+  let mb := firstn (go_nbuf o) (go_buf o) in
+  let '(j, erm, wm) := run_calls (bxe_close en mb) (go_w o) in
+  let (er, o') := gw_close en o in
+  er = erm /\ go_w o' = wm /\ go_err o' = er /\ go_nbuf o' = 0 /\ go_buf o' = go_buf o /\
+  List.length (go_out o') = K * obl_nat en.
+Proof. exact (gw_close_model en K Hibl HK o). Qed.
+
+(* the two combined — the translated Write against bxe_write: it returns (n, the first failing call's error or nil),
+   leaves in `e` an object o' whose writer is what run_calls (go_calls en K ws) leaves and whose e.err is that error,
+   and in the local `p` the unconsumed tail p'; count, nbuf and buffered bytes as in C10_source_gw_write_model.
+   Hypotheses: Hibl, HK, gobj_ok, e.err = nil, the fuel bound. *)
+Theorem C10_source_encoder_Write (o : gobj) (p : bytes) (F : nat) :
+  gobj_ok en K o -> go_err o = None -> 30 + ibl_nat en + List.length p / (K * ibl_nat en) <= F ->
+  let r := run2 (ext_bx en) F f_basex_encoder_Write [g_obj en o; VBytes p] in
+  let '(ws, mb') := bxe_write en (firstn (go_nbuf o) (go_buf o)) p in
+  let '(j, erm, wm) := run_calls (go_calls en K ws) (go_w o) in
+  exists (n : nat) (o' : gobj) (p' : bytes),
+    fst r = ORet [VInt (Z.of_nat n); g_werr erm] /\
+    lookup "e" (snd r) = Some (g_obj en o') /\ lookup "p" (snd r) = Some (VBytes p') /\
+    go_w o' = wm /\ go_err o' = erm /\
+    match erm with
+    | None => n = List.length p /\ go_nbuf o' = List.length mb' /\
+              firstn (go_nbuf o') (go_buf (pending_copy o' p')) = mb' /\ gobj_ok en K (pending_copy o' p')
+    | Some _ => n = (if Nat.ltb 0 (go_nbuf o) then ibl_nat en - go_nbuf o else 0)
+                    + (j - 1 - (if Nat.ltb 0 (go_nbuf o) then 1 else 0)) * (K * ibl_nat en)
+    end.
+Proof. exact (go_encoder_Write en K Hibl HK o p F). Qed.
+
+(* the translated Close against bxe_close.  Hypotheses: Hibl, HK, gobj_ok, e.err = nil, fuel >= 12 (no size
+   hypothesis at all). *)
+Theorem C10_source_encoder_Close (o : gobj) (F : nat) :
+  gobj_ok en K o -> go_err o = None -> 12 <= F ->
+  let r := run2 (ext_bx en) F f_basex_encoder_Close [g_obj en o] in
+  let '(j, erm, wm) := run_calls (bxe_close en (firstn (go_nbuf o) (go_buf o))) (go_w o) in
+  exists o' : gobj,
+    fst r = ORet [g_werr erm] /\ lookup "e" (snd r) = Some (g_obj en o') /\
+    go_w o' = wm /\ go_err o' = erm /\ go_nbuf o' = 0 /\ go_buf o' = go_buf o /\
+    List.length (go_out o') = K * obl_nat en.
+Proof. exact (go_encoder_Close en K Hibl HK o F). Qed.
+
+(* C10_source_encoder_Write for run_func2 itself (fuel 300).  Extra hypothesis: 30 + ibl + len(p)/(K*ibl) <= 300
+   (for base62 and K = 128: inputs up to about 950 KiB per Write call; larger inputs: the theorem above). *)
+Theorem C10_source_encoder_Write_300 (o : gobj) (p : bytes) :
+  gobj_ok en K o -> go_err o = None ->
+  30 + ibl_nat en + List.length p / (K * ibl_nat en) <= 300 ->
+  let r := run_func2 (ext_bx en) f_basex_encoder_Write [g_obj en o; VBytes p] in
+  let '(ws, mb') := bxe_write en (firstn (go_nbuf o) (go_buf o)) p in
+  let '(j, erm, wm) := run_calls (go_calls en K ws) (go_w o) in
+  exists (n : nat) (o' : gobj) (p' : bytes),
+    fst r = ORet [VInt (Z.of_nat n); g_werr erm] /\
+    lookup "e" (snd r) = Some (g_obj en o') /\ lookup "p" (snd r) = Some (VBytes p') /\
+    go_w o' = wm /\ go_err o' = erm /\
+    match erm with
+    | None => n = List.length p /\ go_nbuf o' = List.length mb' /\
+              firstn (go_nbuf o') (go_buf (pending_copy o' p')) = mb' /\ gobj_ok en K (pending_copy o' p')
+    | Some _ => n = (if Nat.ltb 0 (go_nbuf o) then ibl_nat en - go_nbuf o else 0)
+                    + (j - 1 - (if Nat.ltb 0 (go_nbuf o) then 1 else 0)) * (K * ibl_nat en)
+    end.
+Proof. exact (go_encoder_Write_300 en K o p Hibl HK). Qed.
+
+(* C10_source_encoder_Close for run_func2 itself.  Hypotheses: Hibl, HK, gobj_ok, e.err = nil. *)
+Theorem C10_source_encoder_Close_300 (o : gobj) :
+  gobj_ok en K o -> go_err o = None ->
+  let r := run_func2 (ext_bx en) f_basex_encoder_Close [g_obj en o] in
+  let '(j, erm, wm) := run_calls (bxe_close en (firstn (go_nbuf o) (go_buf o))) (go_w o) in
+  exists o' : gobj,
+    fst r = ORet [g_werr erm] /\ lookup "e" (snd r) = Some (g_obj en o') /\
+    go_w o' = wm /\ go_err o' = erm /\ go_nbuf o' = 0 /\ go_buf o' = go_buf o /\
+    List.length (go_out o') = K * obl_nat en.
+Proof. exact (go_encoder_Close_300 en K o Hibl HK). Qed.
+End C10_source.
+
+Print Assumptions C10_source_encoder_Write_run.
+Print Assumptions C10_source_encoder_Close_run.
+Print Assumptions C10_source_gw_write_model.
+Print Assumptions C10_source_gw_close_model.
+Print Assumptions C10_source_encoder_Write.
+Print Assumptions C10_source_encoder_Close.
+Print Assumptions C10_source_encoder_Write_300.
+Print Assumptions C10_source_encoder_Close_300.
 Print Assumptions C10_min_chars_spec.
 Print Assumptions C10_max_bytes_spec.
 Print Assumptions C10_encode_is_base_conversion.
